@@ -48,7 +48,8 @@ def call_is(t, *names):
 
 def const_int(op):
     if op.get("c") == "const" and "int" in op:
-        return op["int"]
+        v = op["int"]
+        return int(v) if isinstance(v, str) else v
     return None
 
 
